@@ -45,7 +45,8 @@ var compiledRegexCache = ttlcache.New[string, *regexp.Regexp](
 			// pattern is the cache key, we must not modify it for the Set call.
 			// Escape all regex metacharacters, then restore glob wildcards as capture groups.
 			regexStr := regexp.QuoteMeta(pattern)
-			regexStr = "^" + strings.ReplaceAll(regexStr, "\\?", "(.)") + "$"
+			// (?s): wildcards match any character, newline included
+			regexStr = "(?s)^" + strings.ReplaceAll(regexStr, "\\?", "(.)") + "$"
 			regexStr = strings.ReplaceAll(regexStr, "\\*", "(.*?)")
 			reg, _ := regexp.Compile(regexStr)
 
